@@ -205,7 +205,8 @@ func (o *Out) Flush() error {
 			if i == hi-1 {
 				sep = ""
 			}
-			fmt.Fprintf(&b, "  (%d%%nat, %s)%s\n", i, o.cases[i], sep)
+			// shard-local index (bin/check adds shard*ShardSize): large nat numerals overflow coqc's stack
+			fmt.Fprintf(&b, "  (%d%%nat, %s)%s\n", i-lo, o.cases[i], sep)
 		}
 		b.WriteString("].\n")
 		b.WriteString("Definition mm := Eval vm_compute in run_mismatches cases.\n")
@@ -239,6 +240,7 @@ func (o *Out) Flush() error {
 		"samples":             o.Samples,
 		"labels":              o.labels,
 		"shards":              shard,
+		"shard_size":          o.ShardSize,
 	}
 	for k, v := range o.Stats {
 		st[k] = v
